@@ -303,12 +303,21 @@ def oracle(code, arg_bits, scopes, flag_order):
           hits.append(('C19/granted-program-differs/stdout', 'captured stdout differs from plain execution'))
         for k, v in g2.items():
           if k in ('__builtins__', 'SENTINEL', 'NULLCTX'): continue
-          if isinstance(v, (int, float, str, bool, tuple, type(None))) and (k not in out or out[k] != v):
+          if isinstance(v, (int, float, str, bool, tuple, type(None))) and (k not in out or _norm(out[k]) != _norm(v)):
             hits.append(('C19/granted-program-differs/variables', 'variable %s differs from plain execution' % k)); break
     else:
       if not isinstance(err, errors.CodeError) or type(err.cause) is not type(plain_err):
         hits.append(('C19/granted-program-differs/error', 'plain execution raises %s but evaluate gives %r' % (type(plain_err).__name__, err)))
   return hits
+
+def _norm(v):
+  """Object addresses in reprs differ between two executions of the same text; they are not part of the comparison."""
+  import re
+  if isinstance(v, str):
+    return re.sub(r' at 0x[0-9a-fA-F]+', ' at 0x?', v)
+  if isinstance(v, tuple):
+    return tuple(_norm(x) for x in v)
+  return v
 
 def impl_validate(code, bits, flag_order):
   parsing, permissions, execution, errors = py()
@@ -390,6 +399,7 @@ def run(ctx):
     src = gen.program()
     try:
       t = ast.parse(src)
+      compile(src, '', 'exec')     # symtable-level errors (e.g. a walrus in a comprehension iterable) are not ast.parse errors
     except SyntaxError:
       ctx.hist('generator', 'syntax-error'); continue
     progs.append((src, t))
